@@ -32,11 +32,21 @@ func (o *OCIDir) tagDelete(_ context.Context, r ref.Ref) error {
 		return fmt.Errorf("failed to read index: %w", err)
 	}
 	changed := false
-	for i, desc := range index.Manifests {
-		if t, ok := desc.Annotations[aOCIRefName]; ok && t == r.Tag {
+	// iterate in reverse, deleting while ranging forward skips the entry that follows a deleted one
+	for i := len(index.Manifests) - 1; i >= 0; i-- {
+		if t, ok := index.Manifests[i].Annotations[aOCIRefName]; ok && t == r.Tag {
 			// remove matching entry from index
 			index.Manifests = slices.Delete(index.Manifests, i, i+1)
 			changed = true
+		}
+	}
+	if !changed {
+		// fall back to the full image name in the annotation, the same way tags are listed and resolved
+		for i := len(index.Manifests) - 1; i >= 0; i-- {
+			if t, ok := index.Manifests[i].Annotations[aOCIRefName]; ok && strings.HasSuffix(t, ":"+r.Tag) {
+				index.Manifests = slices.Delete(index.Manifests, i, i+1)
+				changed = true
+			}
 		}
 	}
 	if !changed {
